@@ -70,9 +70,50 @@ def parse_variant(variant, um):
             with open(pth, "wb") as f:
                 f.write((b"\xef\xbb\xbf" if bom else b"") + content.encode("utf-8"))
             paths.append(pth)
+        _nfiles[0] += 1
+        if _nfiles[0] % 5 == 2:
+            # the files are gone (moved away) between the construction of the object and its parse(), and back afterwards: the object was given the
+            # files when it was made.  If parse() raises for that, it is asked once more with the files back; what it then reports is judged as usual.
+            import warnings  # noqa: PLC0415
+
+            from decaylanguage import DecFileParser  # noqa: PLC0415
+
+            HITS.append("files-moved-away-between-construction-and-parse")
+            p1 = DecFileParser(*paths)
+            if um:
+                p1.load_additional_decay_models(*um)
+            away = d + ".away"
+            os.rename(d, away)
+            try:
+                with warnings.catch_warnings():
+                    warnings.simplefilter("ignore")
+                    try:
+                        p1.parse()
+                        return p1, []
+                    except Exception:  # noqa: BLE001
+                        HITS.append("parse-refused-while-the-files-were-away:asked-again-with-the-files-back")
+            finally:
+                os.rename(away, d)
+            with warnings.catch_warnings():
+                warnings.simplefilter("ignore")
+                p1.parse()
+            return p1, []
+        if _nfiles[0] % 3 == 1:
+            # the same paths handed to a second object right after the first: it reads the files as they are, nothing of the first object's reading
+            HITS.append("same-paths-given-to-a-second-object")
+            snapshot.make_parser(None, paths, um)
+            if len(paths) > 1 and _nfiles[0] % 2:
+                try:
+                    snapshot.make_parser(None, paths[:1], um)     # ... and the first file alone in between (it need not be a complete text: not judged)
+                except Exception:  # noqa: BLE001, S110
+                    pass
         return snapshot.make_parser(None, paths, um)
     finally:
         pass
+
+
+_nfiles = [0]
+HITS: list = []
 
 
 _big_done = []
@@ -165,6 +206,12 @@ def make_variant(ctx, text, items, um, force=None):
         parts.append(layout.render(seg))
         prev = (c + 1) if c is not None else None
     applied.add("R11-multifile")
+    if force is None and rng.random() < 0.12:
+        # a long first part (a master file's documentation header): 120 kB of comment lines in front of its statements
+        nlc = "\r\n" if "\r\n" in parts[0] else "\n"
+        parts[0] = "".join(f"# {i:05d} documentation header of the generic file, kept by every release ............{nlc}" for i in range(1500)) + parts[0]
+        applied.add("R1-comment")
+        ctx.hit("multifile-first-part-larger-than-100kB")
     every_end = rng.random() < 0.4
     files, boms = [], []
     for i, part in enumerate(parts):
@@ -222,6 +269,8 @@ def check_base(ctx, text, um, nvariants, workload, label, isolated=()):
         mech = "variant:" + "+".join(sorted(a.split("-")[0] for a in applied)) if applied else "variant:none"
         try:
             p1, _ = parse_variant(variant, um)
+            while HITS:
+                ctx.hit(HITS.pop())
         except core.Inconclusive:
             raise
         except Exception as e:  # noqa: BLE001
